@@ -3,6 +3,7 @@ package harness
 import (
 	"errors"
 	"fmt"
+	"github.com/nats-io/nats.go"
 	"sort"
 	"time"
 
@@ -130,6 +131,18 @@ func c16Direct(c *CheckCtx) {
 											if prov.calls != 0 {
 												c.DirectViolation("store-contacted-before-validation", fmt.Sprintf("%s: provider was called %d times although the configuration is invalid", desc, prov.calls), desc)
 											}
+											// the second constructor, over a connection that was never dialled: an
+											// invalid configuration is refused by the same validation before the
+											// connection is looked at
+											if err2, pan := c16WithConn(cfg); pan != "" {
+												c.DirectViolation("withconn/invalid-config-reached-the-connection", fmt.Sprintf("NewElectionWithConn %s: panicked on the undialled connection instead of rejecting the configuration: %s", desc, pan), desc)
+											} else if err2 == nil {
+												c.DirectViolation("withconn/invalid-config-accepted", fmt.Sprintf("NewElectionWithConn accepted a configuration the statement rejects (offending: %v): %s", keys(bad), desc), desc)
+											} else if ve2 := (*leader.ValidationError)(nil); !errors.As(err2, &ve2) {
+												c.DirectViolation("withconn/error-not-validation-error", fmt.Sprintf("NewElectionWithConn %s: error %v is not a *ValidationError", desc, err2), desc)
+											} else if !bad[ve2.Field] {
+												c.DirectViolation("withconn/error-names-wrong-field/"+ve2.Field, fmt.Sprintf("NewElectionWithConn %s: error names field %q, offending fields are %v", desc, ve2.Field, keys(bad)), desc)
+											}
 											if len(samples) < 4 && n%7919 == 0 {
 												samples = append(samples, map[string]any{"config": desc, "expected": "rejected " + fmt.Sprint(keys(bad)), "got": errStr(err)})
 											}
@@ -162,7 +175,7 @@ func keys(m map[string]bool) []string {
 func init() {
 	props["C16"] = &propDef{
 		Level:  "exploration",
-		Rule:   "full cartesian product of per-field boundary sets (H in {-1ns,0,1ns,1ms,200ms,1y/3}; TTL, ValidationInterval, DisconnectGracePeriod each in {-1ns,0,1ns,threshold-1ns,threshold,threshold+1ns,1y}; MaxConsecutiveFailures, Priority in {-1,0,1,2}; takeover on/off; each string empty/non-empty) through NewElection with a call-counting provider, compared with the statement's predicate; distinct_nontrivial = distinct configurations the reference predicate rejects (each is distinct by construction)",
+		Rule:   "full cartesian product of per-field boundary sets (H in {-1ns,0,1ns,1ms,200ms,1y/3}; TTL, ValidationInterval, DisconnectGracePeriod each in {-1ns,0,1ns,threshold-1ns,threshold,threshold+1ns,1y}; MaxConsecutiveFailures, Priority in {-1,0,1,2}; takeover on/off; each string empty/non-empty) through NewElection with a call-counting provider, compared with the statement's predicate; every configuration the predicate rejects also through NewElectionWithConn over a connection that was never dialled; distinct_nontrivial = distinct configurations the reference predicate rejects (each is distinct by construction)",
 		Assume: []string{"the lattice covers every comparison in validateConfig at, below and above its threshold; durations beyond one year (3H overflow) are not enumerated"},
 		Direct: c16Direct,
 	}
@@ -181,3 +194,14 @@ func dedupD(in []time.Duration) []time.Duration {
 }
 
 func sortStrings(s []string) { sort.Strings(s) }
+
+// c16WithConn runs NewElectionWithConn over a zero nats.Conn (never dialled).
+func c16WithConn(cfg leader.ElectionConfig) (err error, panicked string) {
+	defer func() {
+		if r := recover(); r != nil {
+			panicked = fmt.Sprint(r)
+		}
+	}()
+	_, err = leader.NewElectionWithConn(&nats.Conn{}, cfg)
+	return err, ""
+}
